@@ -321,7 +321,9 @@ fn read_codec(metadata: &HashMap<String, Value>) -> AvroResult<Codec> {
                         if let Some(Value::Bytes(bytes)) =
                             metadata.get("avro.codec.compression_level")
                         {
-                            Ok(Codec::Bzip2(Bzip2Settings::new(bytes[0])))
+                            // An empty value is malformed, not an index panic
+                            let level = bytes.first().ok_or(Details::BadCodecMetadata)?;
+                            Ok(Codec::Bzip2(Bzip2Settings::new(*level)))
                         } else {
                             Ok(codec)
                         }
@@ -332,7 +334,9 @@ fn read_codec(metadata: &HashMap<String, Value>) -> AvroResult<Codec> {
                         if let Some(Value::Bytes(bytes)) =
                             metadata.get("avro.codec.compression_level")
                         {
-                            Ok(Codec::Xz(XzSettings::new(bytes[0])))
+                            // An empty value is malformed, not an index panic
+                            let level = bytes.first().ok_or(Details::BadCodecMetadata)?;
+                            Ok(Codec::Xz(XzSettings::new(*level)))
                         } else {
                             Ok(codec)
                         }
@@ -343,7 +347,9 @@ fn read_codec(metadata: &HashMap<String, Value>) -> AvroResult<Codec> {
                         if let Some(Value::Bytes(bytes)) =
                             metadata.get("avro.codec.compression_level")
                         {
-                            Ok(Codec::Zstandard(ZstandardSettings::new(bytes[0])))
+                            // An empty value is malformed, not an index panic
+                            let level = bytes.first().ok_or(Details::BadCodecMetadata)?;
+                            Ok(Codec::Zstandard(ZstandardSettings::new(*level)))
                         } else {
                             Ok(codec)
                         }
